@@ -237,6 +237,9 @@ template <class Value> void HashedSearch<Value>::InitializeFromARPA(const char *
 
   PositiveProbWarn warn(config.positive_log_probability);
   Read1Grams(f, counts[0], vocab, unigram_.Raw(), warn);
+  // The sign bit of prob means "does not extend left".  ReadNGrams sets it for n >= 2; a unigram
+  // read as +0.0 would otherwise be reported as extending left.  MarkExtends clears it again.
+  for (WordIndex i = 0; i < vocab.Bound(); ++i) util::SetSign(unigram_.Raw()[i].prob);
   CheckSpecials(config, vocab);
   DispatchBuild(f, counts, config, vocab, warn);
 }
